@@ -85,3 +85,73 @@ for _side in ('insert_left', 'insert_right'):
                       ('new_values_in_order', ('forall(lambda j: self.bitmap[j] == newbitmap[j], k)') if _side == 'insert_left'
                        else ('forall(lambda j: self.bitmap[len(old(self.bitmap)) + j] == newbitmap[j], k)'))],
              modifies=['self.bitmap', 'self.freq_index', 'self.n_min', 'self.n_max'])
+
+contract('gnpy.topology.spectrum_assignment.Bitmap.geti', props=['C14', 'C15'],
+         params={'self': BITMAP, 'nvalue': integer()}, spec=SPEC_BM,
+         requires=[('wf', 'WF(self)'), ('indices', 'WFI(self)')],
+         raises={'ValueError': 'nvalue < self.n_min or nvalue > self.n_max'},
+         ensures=[('local_index', 'result == nvalue - self.n_min')], returns=integer(), pure=True,
+         hints=['nvalue - self.n_min'])
+
+# ---- create_oms_bitmap: ghost parameter equipment['__common_range__'] stands for the value returned by
+# find_elements_common_range (C07 proves that function); variants for 1, 2 and 3 common bands
+contract('gnpy.topology.request.find_elements_common_range', trusted=True, props=[],
+         params={'el_list': lst(), 'equipment': dct()},
+         ensures=[], returns=expr("equipment['__common_range__']"),
+         note='ghost: the common range is a parameter of the create_oms_bitmap contract; the function itself is under '
+              'contract for C07')
+
+BAND = dct(f_min=real(), f_max=real())
+for _nb in (1, 2, 3):
+    _bands = [f"equipment['__common_range__'][{k}]" for k in range(_nb)]
+    _in_band = ' or '.join(f"(frequency_to_n({b}['f_min'], grid) <= n0 + k and n0 + k <= frequency_to_n({b}['f_max'], grid))"
+                           for b in _bands)
+    contract('gnpy.topology.spectrum_assignment.create_oms_bitmap',
+             name=f'gnpy.topology.spectrum_assignment.create_oms_bitmap[{_nb} band(s)]', props=['C15'],
+             params={'oms': obj('OMS', el_list=lst()), 'equipment': dct(__common_range__=lst(*[BAND] * _nb)),
+                     'f_min': real(), 'f_max': real(), 'grid': real()}, spec=SPEC_BM,
+             let={'n0': 'frequency_to_n(f_min, grid)', 'n1': 'frequency_to_n(f_max, grid)'},
+             requires=[('grid', 'grid > 0'),
+                       ('first_band_inside', f"n0 <= frequency_to_n({_bands[0]}['f_min'], grid)"),
+                       ('last_band_inside', f"frequency_to_n({_bands[-1]}['f_max'], grid) <= n1")] +
+                      [(f'band{k}_nonempty', f"frequency_to_n({b}['f_min'], grid) <= frequency_to_n({b}['f_max'], grid)")
+                       for k, b in enumerate(_bands)] +
+                      [(f'bands_{k}_{k + 1}_apart', f"frequency_to_n({_bands[k]}['f_max'], grid) < frequency_to_n({_bands[k + 1]}['f_min'], grid)")
+                       for k in range(_nb - 1)],
+             # every OMS map covers the same contiguous slot range n(f_min)..n(f_max) of the network
+             ensures=[('covers_network_range', 'len(result) == n1 - n0 + 1'),
+                      ('usable_exactly_inside_common_bands',
+                       f'forall(lambda k: result[k] == (BitmapValue.FREE if ({_in_band}) else BitmapValue.UNUSABLE), len(result))')],
+             use_at_calls=False, modifies=[],
+             native_patches={'gnpy.topology.spectrum_assignment.find_elements_common_range':
+                             "lambda el_list, equipment: equipment['__common_range__']"})
+
+# ---- align_grids: (1) the loop body for ONE arbitrary map (mechanically extracted; any number of maps, any extents),
+# (2) the glue (extent = min/max over the list, every map visited, the list returned) on a two-map list
+def OMSB(tag):
+    return obj('OMS', oms_id=integer(), spectrum_bitmap=BM(tag), el_id_list=lst(), el_list=lst(), nb_channels=integer(),
+               service_list=lst())
+
+
+_O = 'this_o.spectrum_bitmap'
+contract('gnpy.topology.spectrum_assignment.align_grids', name='gnpy.topology.spectrum_assignment.align_grids[loop body]',
+         loop=0, props=['C15'], use_at_calls=False,
+         params={'this_o': OMSB('a'), 'n_min': integer(), 'n_max': integer()}, spec=SPEC_BM,
+         requires=[('wf', f'WF({_O})'), ('indices', f'WFI({_O})'),
+                   ('global_extent_covers_map', f'n_min <= {_O}.n_min and {_O}.n_max <= n_max')],
+         ensures=[('wf', f'WF({_O})'), ('indices', f'WFI({_O})'),
+                  ('common_extent', f'{_O}.n_min == n_min and {_O}.n_max == n_max'),
+                  ('old_values_kept_at_their_n', f'forall(lambda j: {_O}.bitmap[j + old({_O}.n_min) - n_min] == old({_O}.bitmap)[j], len(old({_O}.bitmap)))'),
+                  ('added_slots_occupied', f'forall(lambda j: implies(j < old({_O}.n_min) - n_min or j > old({_O}.n_max) - n_min, '
+                                           f'{_O}.bitmap[j] == BitmapValue.OCCUPIED), n_max - n_min + 1)')],
+         modifies=[f'{_O}.{f}' for f in ('bitmap', 'freq_index', 'n_min', 'n_max')])
+
+contract('gnpy.topology.spectrum_assignment.align_grids', name='gnpy.topology.spectrum_assignment.align_grids[two maps]',
+         props=['C15'], use_at_calls=False,
+         params={'oms_list': lst(OMSB('a'), OMSB('b'))}, spec=SPEC_BM,
+         let={'A': 'oms_list[0].spectrum_bitmap', 'B': 'oms_list[1].spectrum_bitmap',
+              'lo': 'min(old(A.n_min), old(B.n_min))', 'hi': 'max(old(A.n_max), old(B.n_max))'},
+         requires=[('wf_a', 'WF(A)'), ('wfi_a', 'WFI(A)'), ('wf_b', 'WF(B)'), ('wfi_b', 'WFI(B)')],
+         ensures=[('common_extent', 'A.n_min == lo and A.n_max == hi and B.n_min == lo and B.n_max == hi'),
+                  ('wf', 'WF(A) and WF(B)'), ('same_list', 'result is oms_list')],
+         modifies=[f'oms_list[{k}].spectrum_bitmap.{f}' for k in range(2) for f in ('bitmap', 'freq_index', 'n_min', 'n_max')])
